@@ -94,7 +94,8 @@ def directed():
     f["recipes/a-1.yaml"] = 'depends: [q]\nbuildScript: "true"\npackageScript: "echo a-1"\n'
     out.append(("number-cycle", f, {"roots": ["root"], "prefix": "", "isolate": None, "short": False, "sandbox": "yes"}))
     # a package that is built inside the sandbox it provides itself (bootstrap shape): the job of the sandboxed
-    # variant consumes the unsandboxed variant, which has the same (plain) variant-id
+    # variant consumes the unsandboxed variant, which has the same (plain) variant-id.  Regression case of F-C20-4
+    # (exec.getDependencies dropped such dependencies; fixed): "jobspec-dependency-dropped" is a fresh violation
     f = _cfg()
     f["recipes/root.yaml"] = ('root: True\ndepends:\n    - name: sb\n      use: [sandbox]\n      forward: True\n    - y\n'
                               'buildScript: "true"\npackageScript: "echo root"\n')
@@ -329,7 +330,7 @@ def oracle(ctx):
     res = _run_children(ctx, cases, 7, max(20.0, min(75.0, ctx.time_left() - 50.0)))
     take(cases, meta, res)
     # the directed shapes without a name clash must give an acyclic job graph
-    for name in ("multi-ok", "propagate-grandparent", "propagate-merged", "second-parent", "reverse-order", "tool-only", "isolate-multi"):
+    for name in ("multi-ok", "sandbox-bootstrap", "propagate-grandparent", "propagate-merged", "second-parent", "reverse-order", "tool-only", "isolate-multi"):
         ok = res.get("directed-" + name)
         if ok is not None and (ok["status"] != "ok" or ok.get("order") != "ok"):
             ctx.violation("the project '%s' (acyclic recipes, no name clash) does not give an acyclic job graph: %s"
